@@ -529,8 +529,12 @@ thread_local! {
 }
 
 pub fn install_quiet_panic_hook() {
-    std::panic::set_hook(Box::new(|info| {
+    let loud = std::env::var("PT_LOUD").is_ok();
+    std::panic::set_hook(Box::new(move |info| {
         let msg = format!("{info}");
+        if loud {
+            eprintln!("{msg}");
+        }
         LAST_PANIC.with(|p| *p.borrow_mut() = msg);
     }));
 }
